@@ -35,7 +35,7 @@ def run(ctx):
     wrapper_stage(ctx)
     ctx.cov['rule'] = ('every stream of length N over the alphabet x every composition of N into chunk sizes '
                        '(plus empty-chunk and query-interleaved variants) executed on the real engine and compared '
-                       'with the TLC-exported reference verdict; non-trivial = streams whose reference is not a '
+                       'with the TLC-exported reference verdict; real-scale layouts and fuzzed images under agreement / reference oracles; InspectWrapper conclusions across read sizes up to 8 MiB; 40 streams inspected alone and by four threads at once; non-trivial = streams whose reference is not a '
                        'plain non-matching rejection')
     ctx.cov['exhaustive'] = True
 
